@@ -47,7 +47,23 @@ func TestKeysAndSignatures(t *testing.T) {
 		msg := message(t)
 		s.Eval()
 		s.Nontrivial(seed, msg)
-		pk, sk := pated.NewKeyFromSeed(seed), stded.NewKeyFromSeed(seed)
+		// the seed lies at the head of a larger buffer of the caller (the first half of a SHA-512 output, a record with
+		// other data behind it): key derivation must neither write behind the seed nor keep referring to it
+		rec := make([]byte, 96)
+		copy(rec, seed)
+		for i := 32; i < 96; i++ {
+			rec[i] = byte(0xA0 + i)
+		}
+		pk, sk := pated.NewKeyFromSeed(rec[:32]), stded.NewKeyFromSeed(seed)
+		for i := 32; i < 96; i++ {
+			if rec[i] != byte(0xA0+i) {
+				rt.Fail(t, "C14/newkeyfromseed-wrote-behind-seed", "NewKeyFromSeed(seed) with the seed at the head of a larger buffer changed byte %d behind it", i)
+				return
+			}
+		}
+		for i := range rec {
+			rec[i] = 0 // the caller wipes its seed record
+		}
 		if !bytes.Equal(pk, sk) {
 			rt.Fail(t, "C14/newkeyfromseed", "NewKeyFromSeed(%x) = %x, crypto/ed25519 gives %x", seed, []byte(pk), []byte(sk))
 			return
